@@ -105,4 +105,12 @@ VARIANTS = [
          expect=("C15-PROMOTE", "_adopt")),
     dict(name="twin: publish through pathlib", kind="twin", file="cotengra/utils.py",
          old="            os.replace(tmp, fname)", new="            tmp.replace(fname)"),
+    dict(name="seed C15_9: overwrite publishes by unlink-then-link", kind="break", file=U,
+         old="            os.replace(tmp, fname)", new="            try:\n                os.link(tmp, fname)\n            except FileExistsError:\n                os.unlink(fname)\n                os.link(tmp, fname)\n            os.unlink(tmp)",
+         expect=("C15-KEEP", "DiskDict.__setitem__")),
+    dict(name="twin: publish with a hard link, first publisher wins (a C14 matter, not a crash hazard)", kind="twin", file=U,
+         old="            os.replace(tmp, fname)", new="            try:\n                os.link(tmp, fname)\n            except FileExistsError:\n                pass\n            finally:\n                os.unlink(tmp)"),
+    dict(name="seed C15_10: an entry counts as present while a temporary sibling exists", kind="break", file=U,
+         old="        return self._path.joinpath(*k).exists()\n\n    def __setitem__", new="        fname = self._path.joinpath(*k)\n        if fname.exists():\n            return True\n        return any(fname.parent.glob(f\"{fname.name}.tmp-*\"))\n\n    def __setitem__",
+         expect=("C15-READER", "presence")),
 ]
